@@ -1662,7 +1662,7 @@ def check_C43(rep):
         L = len(bench.set_words)
         items = []
         extra_cfg = (set_name, emit_n, det_n, ctrl_o, cfg_o) in pool
-        n_tr = ((1 if extra_cfg else 3) if quick else (4 if extra_cfg else 12))
+        n_tr = ((1 if extra_cfg else 2) if quick else (4 if extra_cfg else 12))
 
         def add(recs, origin):
             rep.add_eval(len(recs))
